@@ -60,6 +60,10 @@ PROP = dict(
         "but nothing is documented, so that is recorded, not asserted",
         "the multi-point proof objects built on KZG (shplonk.OpeningProof, fflonk.OpeningProof) are round-tripped on arbitrary table shapes "
         "(ragged, empty, nil) and arbitrary subgroup points, not only honest proofs; their soundness belongs to C17",
+        "receiver histories: every decoder (SRS ReadFrom/UnsafeReadFrom/ReadDump, ProvingKey, VerifyingKey, OpeningProof, BatchOpeningProof, "
+        "MpcSetup, shplonk/fflonk OpeningProof) is run, in every case, on a fresh receiver and on used receivers that already hold other "
+        "material of a smaller, an equal and a larger size than the decoded object (VerifyingKey and OpeningProof have no size: fresh/used); "
+        "afterwards the receiver must equal the source field by field incl. lengths, re-encode byte-exactly, and verify / seal / commit-open-verify",
         "every job runs on all 7 pairing curves in both tiers (no rotation); the four core curves only get more cases",
     ],
     mandatory_all=["len:1", "len:size", "p:zero", "z:root", "z:tau", "tuple:accept", "tuple:reject", "batch>=2",
@@ -68,7 +72,11 @@ PROP = dict(
                    "serial:MpcSetup:seal", "serial:OpeningProof", "serial:BatchOpeningProof", "serial:shplonk.OpeningProof",
                    "serial:fflonk.OpeningProof", "serial:fflonk.OpeningProof:truncated", "table:has_empty", "history:vk_reuse",
                    "srs:minus1", "srs:structure", "points:reference", "points:library", "H=infinity", "digest:infinity"]
-                  + ["generic_kzg:" + c for c in PAIRING],
+                  + ["generic_kzg:" + c for c in PAIRING]
+                  + ["recv:%s:%s" % (o, r) for o in ("SRS", "ProvingKey", "SRS.dump", "BatchOpeningProof", "MpcSetup",
+                                                     "shplonk.OpeningProof", "fflonk.OpeningProof")
+                     for r in ("fresh", "smaller", "equal", "larger")]
+                  + ["recv:VerifyingKey:fresh", "recv:VerifyingKey:used", "recv:OpeningProof:fresh", "recv:OpeningProof:used"],
     jobs=_jobs,
 )
 
